@@ -281,6 +281,25 @@ Proof.
   lia.
 Qed.
 
+(* ---- '.' and '..' ------------------------------------------------------------------------------------------------- *)
+
+(* the records scanned from the extent of the Joliet directory at p (joliet_sorted) start with '.' = that
+   very extent and '..' = the extent of the directory above (the root itself for the root) *)
+Theorem joliet_dot_dotdot dt s : length dt = 7%nat -> mj_wf s = true ->
+  forall p, mj_is_dir_at (njol s) p = true ->
+  exists r1 r2 rest,
+    mj_dir_recs dt s (njol s) (mj_JDB s) p = r1 :: r2 :: rest /\
+    Codec.ident r1 = [0] /\ flags r1 = 2 /\
+    extent r1 = ms_ext_at (mj_JDB s) p /\ data_len r1 = mj_dlen_at (njol s) p /\
+    Codec.ident r2 = [1] /\ flags r2 = 2 /\
+    mj_is_dir_at (njol s) (removelast p) = true /\
+    extent r2 = ms_ext_at (mj_JDB s) (removelast p) /\ data_len r2 = mj_dlen_at (njol s) (removelast p).
+Proof.
+  intros Hdt Hwf p Hp. destruct (mj_j_hyps s Hwf) as (H1 & H2 & H3 & H4).
+  exact (mj_area_dot_dotdot dt Hdt s (njol s) (mj_jdir_start s) H1 H2 H3 H4 (mj_fext_range s Hwf)
+           (mj_len_range32 s Hwf) p Hp).
+Qed.
+
 (* ---- every state reached by an accepted history ---------------------------------------------------------------- *)
 
 Theorem joliet_reachable_wf ops : AccountNs.clean ops = true ->
@@ -300,4 +319,5 @@ Print Assumptions joliet_iso_read_master.
 Print Assumptions joliet_same_sectors.
 Print Assumptions joliet_path_table_consistent.
 Print Assumptions joliet_dirs_disjoint.
+Print Assumptions joliet_dot_dotdot.
 Print Assumptions joliet_reachable_wf.
